@@ -184,6 +184,10 @@ def finish(rep, level_category, explanation, checker_cmd):
         'fixed_findings_watched': [f['id'] for f in fixed],
     }
     cov.update(rep.extra)
+    if level_category == 'proof' and (cov['discharged'] != cov['obligations'] or cov['symbolic_bounded_obligations_S']):
+        # not every obligation is a discharged P obligation (known findings, undecided, or S-level parts): do not call the run a proof
+        cov['claimed_level_downgraded_from'] = 'proof'
+        level_category = 'other'
     ev = {'property_id': rep.pid, 'tier': rep.tier, 'seed': SEED, 'level': level_category,
           'coverage': cov, 'assumptions': rep.assumptions, 'wall_s': round(time.time() - rep.t0, 2),
           'violations': n_viol, 'exit_code': code}
